@@ -1,6 +1,710 @@
 package main
 
-// replay turns a solver model into a run of the real code (see replay_gen.go); stub until wired.
+// Replay: turn the solver's counterexample for a failed obligation into a run of the REAL code
+// (an in-package test injected with `go test -overlay`, nothing is written into /repo).
+
+import (
+	"encoding/json"
+	"fmt"
+	"go/ast"
+	"go/token"
+	"go/types"
+	"math/big"
+	"os"
+	"os/exec"
+	"path/filepath"
+	"strings"
+	"context"
+	"time"
+
+	"golang.org/x/tools/go/ssa"
+)
+
+// ---- s-expression parsing of (get-value ...) output ----
+
+type sexp struct {
+	atom string
+	list []*sexp
+}
+
+func parseSexps(s string) []*sexp {
+	var out []*sexp
+	i := 0
+	var parse func() *sexp
+	skip := func() {
+		for i < len(s) && (s[i] == ' ' || s[i] == '\n' || s[i] == '\t' || s[i] == '\r') {
+			i++
+		}
+	}
+	parse = func() *sexp {
+		skip()
+		if i >= len(s) {
+			return nil
+		}
+		if s[i] == '(' {
+			i++
+			n := &sexp{list: []*sexp{}}
+			for {
+				skip()
+				if i >= len(s) {
+					return n
+				}
+				if s[i] == ')' {
+					i++
+					return n
+				}
+				c := parse()
+				if c == nil {
+					return n
+				}
+				n.list = append(n.list, c)
+			}
+		}
+		if s[i] == '|' {
+			j := strings.IndexByte(s[i+1:], '|')
+			if j < 0 {
+				j = len(s) - i - 1
+			}
+			a := s[i : i+j+2]
+			i += j + 2
+			return &sexp{atom: a}
+		}
+		if s[i] == '"' {
+			j := i + 1
+			for j < len(s) && s[j] != '"' {
+				j++
+			}
+			a := s[i:min(j+1, len(s))]
+			i = j + 1
+			return &sexp{atom: a}
+		}
+		j := i
+		for j < len(s) && !strings.ContainsRune(" \n\t\r()", rune(s[j])) {
+			j++
+		}
+		a := s[i:j]
+		i = j
+		return &sexp{atom: a}
+	}
+	for {
+		skip()
+		if i >= len(s) {
+			break
+		}
+		x := parse()
+		if x == nil {
+			break
+		}
+		out = append(out, x)
+	}
+	return out
+}
+
+func (x *sexp) String() string {
+	if x.list == nil {
+		return x.atom
+	}
+	parts := make([]string, len(x.list))
+	for i, c := range x.list {
+		parts[i] = c.String()
+	}
+	return "(" + strings.Join(parts, " ") + ")"
+}
+
+// intValue interprets a model value as an integer.
+func (x *sexp) intValue() (*big.Int, bool) {
+	if x.list == nil {
+		a := x.atom
+		if strings.HasPrefix(a, "#x") {
+			return new(big.Int).SetString(a[2:], 16)
+		}
+		if strings.HasPrefix(a, "#b") {
+			return new(big.Int).SetString(a[2:], 2)
+		}
+		return new(big.Int).SetString(a, 10)
+	}
+	if len(x.list) == 2 && x.list[0].atom == "-" {
+		v, ok := x.list[1].intValue()
+		if !ok {
+			return nil, false
+		}
+		return v.Neg(v), true
+	}
+	if len(x.list) == 3 && x.list[0].atom == "_" && strings.HasPrefix(x.list[1].atom, "bv") {
+		return new(big.Int).SetString(x.list[1].atom[2:], 10)
+	}
+	return nil, false
+}
+
+// ---- model access ----
+
+type modelQuery struct {
+	terms []string
+	index map[string]int
+}
+
+func (m *modelQuery) want(t string) {
+	if m.index == nil {
+		m.index = map[string]int{}
+	}
+	if _, ok := m.index[t]; ok {
+		return
+	}
+	m.index[t] = len(m.terms)
+	m.terms = append(m.terms, t)
+}
+
+type model struct {
+	q    *modelQuery
+	vals []*sexp
+}
+
+func (m *model) get(t string) *sexp {
+	i, ok := m.q.index[t]
+	if !ok || i >= len(m.vals) {
+		return nil
+	}
+	return m.vals[i]
+}
+func (m *model) int(t string) (*big.Int, bool) {
+	x := m.get(t)
+	if x == nil {
+		return nil, false
+	}
+	return x.intValue()
+}
+func (m *model) bool(t string) bool {
+	x := m.get(t)
+	return x != nil && x.atom == "true"
+}
+
+const replayElems = 48
+
+// entryHeap returns the entry-state heap term if it was declared before position pos.
+func (v *vc) entryHeap(name string, pos int) (string, bool) {
+	key := fmt.Sprintf("%s@e%d", name, 0)
+	t, ok := v.heapMemo[key]
+	if !ok {
+		return "", false
+	}
+	want := fmt.Sprintf("(declare-const %s ", t)
+	for i, it := range v.items {
+		if i >= pos {
+			break
+		}
+		if it.kind == itDecl && strings.HasPrefix(it.text, want) {
+			return t, true
+		}
+	}
+	return "", false
+}
+
+type rnode struct {
+	typ   types.Type
+	term  string
+	kids  []*rnode
+	elems []*rnode
+	field []*rnode
+	unsup string
+}
+
+func (v *vc) plan(mq *modelQuery, term string, t types.Type, pos, depth int) *rnode {
+	n := &rnode{typ: t, term: term}
+	if depth > 4 {
+		n.unsup = "nesting too deep"
+		return n
+	}
+	switch u := t.Underlying().(type) {
+	case *types.Basic:
+		switch {
+		case u.Info()&types.IsInteger != 0, u.Info()&types.IsBoolean != 0:
+			mq.want(term)
+		case u.Info()&types.IsString != 0:
+			mq.want(fmt.Sprintf("(str_len %s)", term))
+			for i := 0; i < replayElems; i++ {
+				mq.want(fmt.Sprintf("(str_at %s %d)", term, i))
+			}
+		case u.Info()&types.IsFloat != 0:
+			n.unsup = "float parameter"
+		default:
+			n.unsup = "basic kind " + u.String()
+		}
+	case *types.Slice:
+		mq.want(fmt.Sprintf("(s_len %s)", term))
+		mq.want(fmt.Sprintf("(s_cap %s)", term))
+		mq.want(fmt.Sprintf("(s_arr %s)", term))
+		et := u.Elem()
+		k := replayElems
+		if _, isBasic := et.Underlying().(*types.Basic); !isBasic {
+			k = 6
+		}
+		if isStruct(et) {
+			for i := 0; i < k; i++ {
+				ref := fmt.Sprintf("(elem (s_arr %s) (+ (s_off %s) %d))", term, term, i)
+				n.elems = append(n.elems, v.planStruct(mq, ref, et, pos, depth+1))
+			}
+		} else {
+			h, _ := v.elemHeap(et)
+			if ht, ok := v.entryHeap(h, pos); ok {
+				for i := 0; i < k; i++ {
+					n.elems = append(n.elems, v.plan(mq, fmt.Sprintf("(select (select %s (s_arr %s)) (+ (s_off %s) %d))", ht, term, term, i), et, pos, depth+1))
+				}
+			}
+		}
+	case *types.Pointer:
+		mq.want(term)
+		if isStruct(u.Elem()) {
+			n.kids = []*rnode{v.planStruct(mq, term, u.Elem(), pos, depth+1)}
+		} else {
+			n.unsup = "pointer to " + u.Elem().String()
+		}
+	case *types.Struct:
+		if isTime(t) {
+			n.unsup = "time.Time"
+			return n
+		}
+		for i := 0; i < u.NumFields(); i++ {
+			n.field = append(n.field, v.plan(mq, fmt.Sprintf("(%s %s)", v.sc.structSel(t, i), term), u.Field(i).Type(), pos, depth+1))
+		}
+	case *types.Interface:
+		n.unsup = "interface"
+	default:
+		n.unsup = fmt.Sprintf("%T", u)
+	}
+	return n
+}
+
+func (v *vc) planStruct(mq *modelQuery, ref string, t types.Type, pos, depth int) *rnode {
+	n := &rnode{typ: t, term: ref}
+	s := t.Underlying().(*types.Struct)
+	for i := 0; i < s.NumFields(); i++ {
+		h, _ := v.fieldHeap(t, i)
+		ht, ok := v.entryHeap(h, pos)
+		if !ok {
+			n.field = append(n.field, nil) // unconstrained: zero value
+			continue
+		}
+		n.field = append(n.field, v.plan(mq, sel(ht, ref), s.Field(i).Type(), pos, depth+1))
+	}
+	return n
+}
+
+func (v *vc) goType(t types.Type) string {
+	pkg := v.fn.Pkg
+	if pkg == nil && v.fn.Parent() != nil {
+		pkg = v.fn.Parent().Pkg
+	}
+	return types.TypeString(t, func(p *types.Package) string {
+		if pkg != nil && p == pkg.Pkg {
+			return ""
+		}
+		return p.Name()
+	})
+}
+
+// emit builds a Go expression for a planned value from the model.
+func (v *vc) emit(n *rnode, m *model) (string, bool) {
+	if n == nil {
+		return "", false
+	}
+	if n.unsup != "" {
+		return "", false
+	}
+	t := n.typ
+	switch u := t.Underlying().(type) {
+	case *types.Basic:
+		switch {
+		case u.Info()&types.IsBoolean != 0:
+			if m.bool(n.term) {
+				return "true", true
+			}
+			return "false", true
+		case u.Info()&types.IsInteger != 0:
+			bi, ok := m.int(n.term)
+			if !ok {
+				return "", false
+			}
+			if v.sc.isBVType(t) {
+				bits, signed, _ := intInfo(t)
+				if signed && bi.Bit(bits-1) == 1 {
+					bi = new(big.Int).Sub(bi, new(big.Int).Lsh(big.NewInt(1), uint(bits)))
+				}
+			}
+			return fmt.Sprintf("%s(%s)", v.goType(t), bi.String()), true
+		case u.Info()&types.IsString != 0:
+			ln, ok := m.int(fmt.Sprintf("(str_len %s)", n.term))
+			if !ok || !ln.IsInt64() || ln.Int64() > 1<<16 {
+				return "", false
+			}
+			bs := make([]byte, ln.Int64())
+			for i := 0; i < len(bs) && i < replayElems; i++ {
+				if c, ok := m.int(fmt.Sprintf("(str_at %s %d)", n.term, i)); ok {
+					bs[i] = byte(c.Int64())
+				}
+			}
+			return fmt.Sprintf("%s(%q)", v.goType(t), string(bs)), true
+		}
+	case *types.Slice:
+		arr, _ := m.int(fmt.Sprintf("(s_arr %s)", n.term))
+		ln, ok1 := m.int(fmt.Sprintf("(s_len %s)", n.term))
+		cp, ok2 := m.int(fmt.Sprintf("(s_cap %s)", n.term))
+		if !ok1 || !ok2 || !ln.IsInt64() || !cp.IsInt64() || cp.Int64() > 1<<20 {
+			return "", false
+		}
+		if arr != nil && arr.Sign() == 0 {
+			return fmt.Sprintf("%s(nil)", v.goType(t)), true
+		}
+		var b strings.Builder
+		fmt.Fprintf(&b, "func() %s { s := make(%s, %d, %d); ", v.goType(t), v.goType(t), ln.Int64(), cp.Int64())
+		for i, e := range n.elems {
+			if int64(i) >= ln.Int64() {
+				break
+			}
+			ge, ok := v.emit(e, m)
+			if !ok {
+				return "", false
+			}
+			fmt.Fprintf(&b, "s[%d] = %s; ", i, ge)
+		}
+		b.WriteString("return s }()")
+		return b.String(), true
+	case *types.Pointer:
+		p, ok := m.int(n.term)
+		if !ok {
+			return "", false
+		}
+		if p.Sign() == 0 {
+			return fmt.Sprintf("(%s)(nil)", v.goType(t)), true
+		}
+		if len(n.kids) == 1 {
+			s, ok := v.emitStruct(n.kids[0], m)
+			if !ok {
+				return "", false
+			}
+			return "&" + s, true
+		}
+	case *types.Struct:
+		if len(n.field) == u.NumFields() {
+			return v.emitStruct(n, m)
+		}
+	}
+	return "", false
+}
+
+func (v *vc) emitStruct(n *rnode, m *model) (string, bool) {
+	s := n.typ.Underlying().(*types.Struct)
+	var parts []string
+	for i := 0; i < s.NumFields(); i++ {
+		f := n.field[i]
+		if f == nil {
+			continue
+		}
+		if f.unsup != "" {
+			continue // leave zero value; replay is only a confirmation
+		}
+		ge, ok := v.emit(f, m)
+		if !ok {
+			continue
+		}
+		parts = append(parts, fmt.Sprintf("%s: %s", s.Field(i).Name(), ge))
+	}
+	return fmt.Sprintf("%s{%s}", v.goType(n.typ), strings.Join(parts, ", ")), true
+}
+
+type readOp struct {
+	param string // reader parameter name
+	reach string
+	kind  string // binread | readfull
+	term  string // value read (binread) / n (readfull)
+	bits  int
+	signed bool
+	errT  string
+	pos   int
+}
+
 func (v *vc) replay(ob *obligation, work string, rep map[string]interface{}) (bool, string) {
-	return false, ""
+	if v.fn == nil {
+		return false, ""
+	}
+	fn := v.fn
+	if fn.Parent() != nil {
+		return false, "closure: no generic replay"
+	}
+	mq := &modelQuery{}
+	type parg struct {
+		name string
+		node *rnode
+		reader bool
+	}
+	var pargs []parg
+	for _, p := range fn.Params {
+		t := v.paramTV[p.Name()]
+		if nt, ok := p.Type().(*types.Named); ok && nt.Obj().Pkg() != nil && nt.Obj().Pkg().Path() == "io" && nt.Obj().Name() == "Reader" {
+			pargs = append(pargs, parg{name: p.Name(), reader: true})
+			continue
+		}
+		pargs = append(pargs, parg{name: p.Name(), node: v.plan(mq, t.term, p.Type(), ob.pos, 0)})
+	}
+	var ops []readOp
+	for _, op := range v.readOps {
+		if op.pos < ob.pos {
+			ops = append(ops, op)
+		}
+	}
+	for _, op := range ops {
+		mq.want(op.reach)
+		mq.want(op.term)
+		if op.errT != "" {
+			mq.want(fmt.Sprintf("(= %s nil_iface)", op.errT))
+		}
+	}
+	text := v.smtFor(ob, true, mq.terms)
+	file := filepath.Join(work, sanitize(ob.name)+".model.smt2")
+	os.WriteFile(file, []byte(text), 0o644)
+	status, out, _ := runSolver(solvers[0], file, 20)
+	if status != "sat" {
+		status, out, _ = runSolver(solvers[2], file, 20)
+	}
+	if status != "sat" {
+		return false, "model extraction failed: " + status
+	}
+	rest := out[strings.Index(out, "\n")+1:]
+	sx := parseSexps(rest)
+	if len(sx) == 0 || len(sx[0].list) == 0 {
+		return false, "no model values"
+	}
+	m := &model{q: mq}
+	for _, pair := range sx[0].list {
+		if len(pair.list) == 2 {
+			m.vals = append(m.vals, pair.list[1])
+		} else {
+			m.vals = append(m.vals, &sexp{atom: "?"})
+		}
+	}
+	inputs := map[string]string{}
+	var setup strings.Builder
+	var argNames []string
+	for i, pa := range pargs {
+		an := fmt.Sprintf("a%d", i)
+		argNames = append(argNames, an)
+		if pa.reader {
+			// rebuild the byte stream from the reads on the model's path
+			setup.WriteString(fmt.Sprintf("\tvar stream%d []byte\n", i))
+			for _, op := range ops {
+				if op.param != pa.name || !m.bool(op.reach) {
+					continue
+				}
+				okRead := op.errT == "" || m.bool(fmt.Sprintf("(= %s nil_iface)", op.errT))
+				if !okRead {
+					break
+				}
+				val, _ := m.int(op.term)
+				if val == nil {
+					val = big.NewInt(0)
+				}
+				switch op.kind {
+				case "binread":
+					w := new(big.Int).Mod(val, new(big.Int).Lsh(big.NewInt(1), uint(op.bits)))
+					bs := w.FillBytes(make([]byte, op.bits/8))
+					setup.WriteString(fmt.Sprintf("\tstream%d = append(stream%d, %s...)\n", i, i, byteLit(bs)))
+				case "readfull":
+					if val.IsInt64() && val.Int64() < 1<<20 {
+						setup.WriteString(fmt.Sprintf("\tstream%d = append(stream%d, make([]byte, %d)...)\n", i, i, val.Int64()))
+					}
+				}
+			}
+			setup.WriteString(fmt.Sprintf("\t%s := bytes.NewReader(stream%d)\n", an, i))
+			inputs[pa.name] = "byte stream rebuilt from the reads on the counterexample path"
+			continue
+		}
+		ge, ok := v.emit(pa.node, m)
+		if !ok {
+			why := "unsupported parameter type"
+			if pa.node != nil && pa.node.unsup != "" {
+				why = pa.node.unsup
+			}
+			return false, fmt.Sprintf("parameter %s cannot be concretised (%s)", pa.name, why)
+		}
+		inputs[pa.name] = ge
+		setup.WriteString(fmt.Sprintf("\t%s := %s\n", an, ge))
+	}
+	rep["model_inputs"] = inputs
+	// call expression
+	var call string
+	sig := fn.Signature
+	if sig.Recv() != nil {
+		call = fmt.Sprintf("%s.%s(%s)", argNames[0], fn.Name(), strings.Join(argNames[1:], ", "))
+	} else {
+		call = fmt.Sprintf("%s(%s)", fn.Name(), strings.Join(argNames, ", "))
+	}
+	nres := sig.Results().Len()
+	var resNames []string
+	for i := 0; i < nres; i++ {
+		resNames = append(resNames, fmt.Sprintf("r%d", i))
+	}
+	var body strings.Builder
+	body.WriteString(setup.String())
+	if nres > 0 {
+		body.WriteString(fmt.Sprintf("\t%s := %s\n", strings.Join(resNames, ", "), call))
+		for _, r := range resNames {
+			body.WriteString(fmt.Sprintf("\t_ = %s\n", r))
+		}
+	} else {
+		body.WriteString("\t" + call + "\n")
+	}
+	body.WriteString("\tfmt.Println(\"GOVC-REPLAY-RETURNED\")\n")
+	ensuresChecked := false
+	if ob.kind == "ensures" {
+		for _, e := range v.fc.ensures {
+			if e.label != ob.label {
+				continue
+			}
+			ge, ok := v.specToGo(e.expr, pargsNames(fn.Params, argNames), resNames)
+			if ok {
+				body.WriteString(fmt.Sprintf("\tif !(%s) { fmt.Println(\"GOVC-REPLAY-ENSURES-FALSE\") }\n", ge))
+				ensuresChecked = true
+			}
+		}
+	}
+	pkgName := fn.Pkg.Pkg.Name()
+	src := fmt.Sprintf("package %s\n\nimport (\n\t\"bytes\"\n\t\"fmt\"\n\t\"testing\"\n)\n\nvar _ = bytes.NewReader\n\n// Replay of obligation %s\nfunc TestGovcReplay(t *testing.T) {\n\tdefer func() {\n\t\tif r := recover(); r != nil {\n\t\t\tfmt.Printf(\"GOVC-REPLAY-PANIC: %%v\\n\", r)\n\t\t}\n\t}()\n%s}\n", pkgName, ob.name, body.String())
+	rep["replay_test"] = src
+	dir := strings.TrimPrefix(fn.Pkg.Pkg.Path(), modPath+"/")
+	testPath := filepath.Join(repoRoot, dir, "govc_replay_test.go")
+	srcFile := filepath.Join(work, sanitize(ob.name)+"_replay_test.go")
+	os.WriteFile(srcFile, []byte(src), 0o644)
+	ov, _ := json.Marshal(map[string]interface{}{"Replace": map[string]string{testPath: srcFile}})
+	ovFile := filepath.Join(work, sanitize(ob.name)+".overlay.json")
+	os.WriteFile(ovFile, ov, 0o644)
+	ctx, cancel := context.WithTimeout(context.Background(), 300*time.Second)
+	defer cancel()
+	cmd := exec.CommandContext(ctx, "go", "test", "-overlay", ovFile, "-vet=off", "-timeout", "60s", "-count=1", "-v", "-run", "^TestGovcReplay$", "./"+dir+"/")
+	cmd.Dir = repoRoot
+	cmd.Env = append(os.Environ(), "GOFLAGS=-mod=mod", "GOPROXY=off", "GOSUMDB=off", "GOTOOLCHAIN=local")
+	outb, _ := cmd.CombinedOutput()
+	outs := string(outb)
+	rep["replay_output"] = firstLines(outs, 12)
+	rep["replay_cmd"] = "cd /repo && go test -overlay <overlay> -vet=off -timeout 60s -count=1 -run '^TestGovcReplay$' ./" + dir + "/"
+	switch {
+	case strings.Contains(outs, "GOVC-REPLAY-PANIC"):
+		if ob.kind == "safety" || ob.kind == "ensures" || ob.kind == "alloc-bound" {
+			return true, "real code panics on the model input: " + lineWith(outs, "GOVC-REPLAY-PANIC")
+		}
+	case strings.Contains(outs, "GOVC-REPLAY-ENSURES-FALSE"):
+		return true, "real code returns a result that violates the postcondition on the model input"
+	case strings.Contains(outs, "GOVC-REPLAY-RETURNED"):
+		if ensuresChecked {
+			return false, "real code satisfies the postcondition on the model input (counterexample comes from an abstraction)"
+		}
+		return false, "real code returned normally on the model input"
+	}
+	return false, "replay did not run to completion"
+}
+
+func pargsNames(params []*ssa.Parameter, argNames []string) map[string]string {
+	m := map[string]string{}
+	for i, p := range params {
+		m[p.Name()] = argNames[i]
+	}
+	return m
+}
+
+func lineWith(s, sub string) string {
+	for _, l := range strings.Split(s, "\n") {
+		if strings.Contains(l, sub) {
+			return strings.TrimSpace(l)
+		}
+	}
+	return ""
+}
+
+func byteLit(bs []byte) string {
+	parts := make([]string, len(bs))
+	for i, b := range bs {
+		parts[i] = fmt.Sprintf("0x%02x", b)
+	}
+	return "[]byte{" + strings.Join(parts, ", ") + "}"
+}
+
+// specToGo compiles a contract expression to a Go boolean over the replay variables.
+// Only a subset is supported (no old() of heap state); unsupported => ok=false.
+func (v *vc) specToGo(e ast.Expr, params map[string]string, results []string) (string, bool) {
+	ok := true
+	var conv func(e ast.Expr) string
+	conv = func(e ast.Expr) string {
+		switch x := e.(type) {
+		case *ast.BasicLit:
+			return x.Value
+		case *ast.Ident:
+			if p, is := params[x.Name]; is {
+				return p
+			}
+			if x.Name == "result" && len(results) == 1 {
+				return results[0]
+			}
+			if strings.HasPrefix(x.Name, "result") {
+				var k int
+				if _, err := fmt.Sscanf(x.Name, "result%d", &k); err == nil && k < len(results) {
+					return results[k]
+				}
+			}
+			if x.Name == "err" && len(results) > 0 {
+				sig := v.fn.Signature
+				for i := 0; i < sig.Results().Len(); i++ {
+					if sig.Results().At(i).Name() == "err" {
+						return results[i]
+					}
+				}
+				return results[len(results)-1]
+			}
+			sig := v.fn.Signature
+			for i := 0; i < sig.Results().Len(); i++ {
+				if sig.Results().At(i).Name() == x.Name {
+					return results[i]
+				}
+			}
+			return x.Name
+		case *ast.ParenExpr:
+			return "(" + conv(x.X) + ")"
+		case *ast.UnaryExpr:
+			return x.Op.String() + conv(x.X)
+		case *ast.BinaryExpr:
+			return "(" + conv(x.X) + " " + x.Op.String() + " " + conv(x.Y) + ")"
+		case *ast.SelectorExpr:
+			return conv(x.X) + "." + x.Sel.Name
+		case *ast.IndexExpr:
+			return conv(x.X) + "[" + conv(x.Index) + "]"
+		case *ast.CallExpr:
+			id, isId := x.Fun.(*ast.Ident)
+			if !isId {
+				ok = false
+				return "false"
+			}
+			switch id.Name {
+			case "imp":
+				return "(!(" + conv(x.Args[0]) + ") || (" + conv(x.Args[1]) + "))"
+			case "iff":
+				return "((" + conv(x.Args[0]) + ") == (" + conv(x.Args[1]) + "))"
+			case "len", "cap", "int", "int64", "uint64", "uint32", "byte":
+				return id.Name + "(" + conv(x.Args[0]) + ")"
+			case "all", "ex":
+				if len(x.Args) != 4 {
+					ok = false
+					return "false"
+				}
+				vn := x.Args[0].(*ast.Ident).Name
+				if id.Name == "all" {
+					return fmt.Sprintf("func() bool { for %s := int(%s); %s < int(%s); %s++ { if !(%s) { return false } }; return true }()", vn, conv(x.Args[1]), vn, conv(x.Args[2]), vn, conv(x.Args[3]))
+				}
+				return fmt.Sprintf("func() bool { for %s := int(%s); %s < int(%s); %s++ { if %s { return true } }; return false }()", vn, conv(x.Args[1]), vn, conv(x.Args[2]), vn, conv(x.Args[3]))
+			}
+			ok = false
+			return "false"
+		}
+		ok = false
+		return "false"
+	}
+	_ = token.ADD
+	s := conv(e)
+	return s, ok
 }
